@@ -15,6 +15,7 @@ import Driver.Hist
 import Driver.Res
 import Driver.Thr
 import Driver.Os
+import Driver.Attr
 
 def main (args : List String) : IO UInt32 := do
   let stdin ← IO.getStdin
@@ -36,4 +37,5 @@ def main (args : List String) : IO UInt32 := do
   | ["res"] => Driver.Res.run stdin; return 0
   | ["thr"] => Driver.Thr.run stdin; return 0
   | ["os"] => Driver.Os.run stdin; return 0
+  | ["attr"] => Driver.Attr.run stdin; return 0
   | _ => IO.eprintln "usage: kdfdrv <stream>"; return 2
